@@ -60,6 +60,8 @@ func checkC20(c *Ctx) {
 	c.Rule("R20.1", "String / CapitalString / unmarshalText tables agree for every level; only documented aliases", 16)
 	c.Rule("R20.2", "parsing never partially updates: stores only in matching arms; exact then ToLower; SetLevel/returns only under err == nil", 6)
 	c.Rule("R20.3", "HTTP handler: single SetLevel under PUT ∧ decode ok; 4xx before every error body; level read after store; decoders reject missing values", 3)
+	c.Rule("R20.6", "a core derived through With keeps the parent's level enabler itself, not a snapshot of its level: a later PUT to a shared AtomicLevel reaches the loggers derived earlier", 3)
+	c.As(map[string]string{"R7.3": "R20.6"}, func() { c7Clone(c) })
 	c.Rule("R20.4", "LevelFlag registers the variable it returns; Set parses, Get reads", 2)
 	c.Rule("R20.5", "the level types offer their text forms through the method sets encoding/json, yaml and flag look at: values marshal, pointers unmarshal", 4)
 	c20TextMethods(c, "R20.5")
